@@ -220,3 +220,189 @@ fn remove_dummy_variable(poly: &[Fr], pad: usize) -> (r: Vec<Fr>)
 //@before /let table: Vec<_> =/
     proof { lemma_pw_shl(nv as nat); }
 //@end
+// ======================= MultilinearPC::setup =======================
+pub proof fn lemma_moff_mono(nv: nat, i: nat) ensures moff(nv, i + 1) == moff(nv, i) + pw((nv - i) as nat) { }
+// the offset of row m plus its length is at most the offset of any later row
+pub proof fn lemma_moff_step(nv: nat, m: nat, i: nat) requires m < i ensures moff(nv, m) + pw((nv - m) as nat) <= moff(nv, i) decreases i
+{ if i > m + 1 { lemma_moff_step(nv, m, (i - 1) as nat); } }
+pub proof fn lemma_moff_total(nv: nat, i: nat) requires i <= nv, nv < 62 ensures moff(nv, i) + pw((nv - i + 1) as nat) == pw(nv + 1), moff(nv, i) < 0x8000_0000_0000_0000 decreases i
+{
+    vstd::arithmetic::power2::lemma_pow2_strictly_increases(nv + 1, 63); vstd::arithmetic::power2::lemma2_to64_rest();
+    if i > 0 { lemma_moff_total(nv, (i - 1) as nat); vstd::arithmetic::power2::lemma_pow2_unfold((nv - (i - 1) + 1) as nat); }
+}
+pub proof fn lemma_pw0_() ensures pw(0) == 1 { vstd::arithmetic::power2::lemma2_to64(); }
+pub proof fn lemma_pw_inj(a: nat, b: nat) requires pw(a) == pw(b) ensures a == b
+{ if a < b { vstd::arithmetic::power2::lemma_pow2_strictly_increases(a, b); } if b < a { vstd::arithmetic::power2::lemma_pow2_strictly_increases(b, a); } }
+pub proof fn lemma_pw_split(n: nat, i: nat) requires i <= n ensures pw(n) == pw((n - i) as nat) * pw(i), pw(i) >= 1, pw((n - i) as nat) >= 1
+{ vstd::arithmetic::power2::lemma_pow2_adds((n - i) as nat, i); vstd::arithmetic::power2::lemma_pow2_pos(i); vstd::arithmetic::power2::lemma_pow2_pos((n - i) as nat); }
+pub proof fn lemma_mul_lt_pw(y: int, a: nat, b: nat) requires 0 <= y < pw(a) ensures 0 <= y * pw(b) < pw(a + b)
+{
+    vstd::arithmetic::power2::lemma_pow2_adds(a, b); vstd::arithmetic::power2::lemma_pow2_pos(b);
+    assert(y * pw(b) < pw(a) * pw(b)) by (nonlinear_arith) requires y < pw(a), pw(b) > 0;
+    assert(y * pw(b) >= 0) by (nonlinear_arith) requires y >= 0, pw(b) > 0;
+}
+
+//@struct file=poly-commit/src/multilinear_pc/data_structures.rs name=UniversalParams
+// std LinkedList used as a double-ended queue: a sequence (front = index 0)
+#[verifier::external_body] #[verifier::reject_recursive_types(T)] pub struct LList<T> { _p: core::marker::PhantomData<T> }
+impl<T> View for LList<T> { type V = Seq<T>; uninterp spec fn view(&self) -> Seq<T>; }
+impl<T> LList<T> {
+    #[verifier::external_body] pub fn new() -> (r: Self) ensures r@.len() == 0 { unimplemented!() }
+    #[verifier::external_body] pub fn from_vec(v: Vec<T>) -> (r: Self) ensures r@ == v@ { unimplemented!() }                       // LinkedList::from_iter(v.into_iter())
+    #[verifier::external_body] pub fn pop_back_unwrap(&mut self) -> (r: T) ensures old(self)@.len() > 0, r == old(self)@.last(), final(self)@ == old(self)@.drop_last() { unimplemented!() }    // pop_back().unwrap(): empty aborts
+    #[verifier::external_body] pub fn pop_front_unwrap(&mut self) -> (r: T) ensures old(self)@.len() > 0, r == old(self)@[0], final(self)@ == old(self)@.subrange(1, old(self)@.len() as int) { unimplemented!() }
+    #[verifier::external_body] pub fn push_front(&mut self, x: T) ensures final(self)@ == seq![x] + old(self)@ { unimplemented!() }
+}
+// `(0..n).map(|_| Fr::rand(rng)).collect()`: n consecutive draws
+#[verifier::external_body] pub fn rand_vec(n: usize, rng: &mut Rng) -> (r: Vec<Fr>)
+    ensures r@.len() == n, forall|i: int| 0 <= i < n ==> (#[trigger] r@[i])@ == draw(old(rng).id@, old(rng).pos@ + i as nat), final(rng).id == old(rng).id, final(rng).pos@ == old(rng).pos@ + n, final(rng).present == old(rng).present { unimplemented!() }
+// `dst.extend((0..n).map(|x| src[x]))`: appends src[0..n]  (n > |src|: abort)
+#[verifier::external_body] pub fn extend_prefix(dst: &mut Vec<Fr>, src: &Vec<Fr>, n: usize) ensures n <= src@.len(), final(dst)@ == old(dst)@ + src@.subrange(0, n as int) { unimplemented!() }
+#[verifier::external_body] pub fn range_to_vec_g1(v: &Vec<G1Affine>, a: usize, b: usize) -> (r: Vec<G1Affine>) ensures a <= b <= v@.len(), r@ == v@.subrange(a as int, b as int) { unimplemented!() }   // (&v[a..b]).to_vec()
+#[verifier::external_body] pub fn range_to_vec_g2(v: &Vec<G2Affine>, a: usize, b: usize) -> (r: Vec<G2Affine>) ensures a <= b <= v@.len(), r@ == v@.subrange(a as int, b as int) { unimplemented!() }
+pub struct BatchMulPreprocessing { pub base: Ghost<FS> }
+impl BatchMulPreprocessing {
+    #[verifier::external_body] pub fn new(base: G1, n: usize) -> (r: BatchMulPreprocessing) ensures r.base@ == base@ { unimplemented!() }
+    #[verifier::external_body] pub fn batch_mul(&self, s: &[Fr]) -> (r: Vec<G1Affine>) ensures r@.len() == s@.len(), forall|i: int| 0 <= i < s@.len() ==> (#[trigger] r@[i])@ == f_mul(self.base@, s@[i]@) { unimplemented!() }
+}
+// ---- specification ----
+// E_i(x) = prod_{j = i}^{nv-1} eq(t_j, bit j of x), built from the top variable down
+pub open spec fn eqtop(t: Seq<Fr>, i: nat, x: int) -> FS decreases t.len() - i {
+    if i + 1 >= t.len() { eq1(t[t.len() - 1]@, bit(x, (t.len() - 1) as nat)) } else { f_mul(eqtop(t, i + 1, x), eq1(t[i as int]@, bit(x, i))) }
+}
+// row i of the parameters at index y (y < 2^(nv-i)): the hypercube point whose low i index bits are dropped
+pub open spec fn mrow(t: Seq<Fr>, i: nat, y: int) -> FS { eqtop(t, i, y * pw(i)) }
+pub open spec fn moff(nv: nat, i: nat) -> nat decreases i { if i == 0 { 0 } else { moff(nv, (i - 1) as nat) + pw((nv - (i - 1)) as nat) } }
+pub open spec fn mlpc_setup_ok(pp: &UniversalParams, nv: usize, id: int, pos: nat) -> bool {
+    let g = draw(id, pos); let h = draw(id, pos + 1);
+    let t = Seq::new(nv as nat, |i: int| Fr::mk(draw(id, pos + 2 + i as nat)));
+    pp.num_vars == nv && pp.g@ == g && pp.h@ == h
+    && pp.powers_of_g@.len() == nv && pp.powers_of_h@.len() == nv && pp.g_mask@.len() == nv
+    && (forall|i: int| 0 <= i < nv ==> (#[trigger] pp.g_mask@[i])@ == f_mul(g, t[i]@))
+    && (forall|i: int| 0 <= i < nv ==> (#[trigger] pp.powers_of_g@[i])@.len() == pw((nv - i) as nat) && pp.powers_of_h@[i]@.len() == pw((nv - i) as nat))
+    && (forall|i: int, y: int| 0 <= i < nv && 0 <= y < pw((nv - i) as nat) ==> (#[trigger] pp.powers_of_g@[i]@[y])@ == f_mul(g, mrow(t, i as nat, y)))
+    && (forall|i: int, y: int| 0 <= i < nv && 0 <= y < pw((nv - i) as nat) ==> (#[trigger] pp.powers_of_h@[i]@[y])@ == f_mul(h, mrow(t, i as nat, y)))
+}
+impl MultilinearPC {
+//@fn id=multilinear_pc.setup file=poly-commit/src/multilinear_pc/mod.rs scope="impl<E: Pairing> MultilinearPC<E>" name=setup props=C09,C17
+    pub fn setup(num_vars: usize, rng: &mut Rng) -> (res: UniversalParams)
+    requires
+        num_vars < 62,
+    ensures
+        num_vars > 0,      // name=multilinear_pc.setup.zero_variables_abort props=C17
+        // one common trapdoor point t (drawn after the two generators); row i, index y: the generator scaled by prod_{j>=i} eq(t_j, bit j-i of y)
+        mlpc_setup_ok(&res, num_vars, old(rng).id@, old(rng).pos@),   // name=multilinear_pc.setup.every_row_is_the_eq_product_at_one_trapdoor_point props=C09
+        final(rng).pos@ == old(rng).pos@ + 2 + num_vars,
+//@body
+//@rw 1 /E::G1::rand\(rng\)/ => G1::rand(rng)
+//@rw 1 /E::G2::rand\(rng\)/ => G2::rand(rng)
+//@rw 1 /let mut powers_of_g = Vec::new\(\);/ => let mut powers_of_g: Vec<Vec<G1Affine>> = Vec::new();
+//@rw 1 /let mut powers_of_h = Vec::new\(\);/ => let mut powers_of_h: Vec<Vec<G2Affine>> = Vec::new();
+//@rw 1 /let t: Vec<_> = \(0\.\.num_vars\)\.map\(\|_\| E::ScalarField::rand\(rng\)\)\.collect\(\);/ => let t: Vec<Fr> = rand_vec(num_vars, rng);
+//@rw 1 /(?s)let mut eq: LinkedList<DenseMultilinearExtension<E::ScalarField>> =\s*LinkedList::from_iter\(eq_extension\(&t\)\.into_iter\(\)\);/ => let mut eq: LList<DenseMLE> = LList::from_vec(eq_extension(t.as_slice()));
+//@rw 1 /let mut eq_arr = LinkedList::new\(\);/ => let mut eq_arr: LList<Vec<Fr>> = LList::new();
+//@rw 2 /eq\.pop_back\(\)\.unwrap\(\)\.evaluations/ => eq.pop_back_unwrap().evaluations
+//@rw 1 /remove_dummy_variable\(&base, i\)/ => remove_dummy_variable(base.as_slice(), i)
+//@rw 1 /let eq = eq_arr\.pop_front\(\)\.unwrap\(\);/ => let eq = eq_arr.pop_front_unwrap();
+//@rw 1 /(?s)let pp_k_powers = \(0\.\.\(1 << \(num_vars - i\)\)\)\.map\(\|x\| eq\[x\]\);\s*pp_powers\.extend\(pp_k_powers\);/ => extend_prefix(&mut pp_powers, &eq, 1 << (num_vars - i));
+//@rw 1 /let mut pp_powers = Vec::new\(\);/ => let mut pp_powers: Vec<Fr> = Vec::new();
+//@rw 1 /g_table\.batch_mul\(&pp_powers\)/ => g_table.batch_mul(pp_powers.as_slice())
+//@rw 1 /h\.batch_mul\(&pp_powers\)/ => h.batch_mul(pp_powers.as_slice())
+//@rw 1 /\(&pp_g\[start\.\.\(start \+ size\)\]\)\.to_vec\(\)/ => range_to_vec_g1(&pp_g, start, start + size)
+//@rw 1 /\(&pp_h\[start\.\.\(start \+ size\)\]\)\.to_vec\(\)/ => range_to_vec_g2(&pp_h, start, start + size)
+//@rw 1 /g_table\.batch_mul\(&t\)/ => g_table.batch_mul(t.as_slice())
+//@closure |(a, b)| => |ab__: (Fr, Fr)| -> (o: Fr) ensures o@ == f_mul(ab__.0@, ab__.1@) ;; let (a, b) = ab__;
+//@after start
+        let ghost id0 = rng.id@; let ghost pos0 = rng.pos@;
+//@after /let t: Vec<_> =/
+        let ghost ts = t@; let ghost nv = num_vars as nat;
+        proof { lemma_pw_shl(nv); }
+//@after /let mut eq: LinkedList/
+        let ghost tabs = eq@;
+//@loop 1 kw=for name=it1
+            invariant it1.index@ <= nv, nv == num_vars, nv < 62, nv >= 1, ts == t@, ts.len() == nv, tabs.len() == nv,
+                forall|k: int| 0 <= k < nv ==> eq_table_ok(ts, &#[trigger] tabs[k], k, nv),
+                ({ let lo = nv - it1.index@;
+                   eq@.len() == (if lo >= 1 { lo - 1 } else { 0 }) && (forall|k: int| 0 <= k < eq@.len() ==> eq@[k] == tabs[k])
+                   && base@.len() == pw(nv) && (forall|x: int| 0 <= x < pw(nv) ==> (#[trigger] base@[x])@ == eqtop(ts, (if lo >= 1 { lo - 1 } else { 0 }) as nat, x))
+                   && eq_arr@.len() == it1.index@
+                   && (forall|m: int| 0 <= m < it1.index@ ==> (#[trigger] eq_arr@[m])@.len() == pw((nv - (lo + m)) as nat))
+                   && (forall|m: int, y: int| 0 <= m < it1.index@ && 0 <= y < pw((nv - (lo + m)) as nat) ==> (#[trigger] eq_arr@[m]@[y])@ == mrow(ts, (lo + m) as nat, y)) }),
+//@loopstart 1
+            let ghost c0 = it1.index@; let ghost lo = nv - c0; let ghost base0 = base@; let ghost arr0 = eq_arr@; let ghost eq0 = eq@;
+            proof {
+                assert(i == lo - 1);
+                lemma_pw_shl(nv); lemma_pw_split(nv, i as nat);
+                if i > 0 { assert(base0.len() == pw(nv) && i <= nv); }
+            }
+//@after /eq_arr\.push_front\(/
+            proof {
+                let r = eq_arr@[0]@;
+                assert(eq_arr@ =~= seq![eq_arr@[0]] + arr0);
+                if i > 0 {
+                    let k = choose|k: nat| #![trigger pw(k)] k < 64 && base0.len() == pw(k) && k >= i && r.len() == pw((k - i) as nat) && forall|x: int| 0 <= x < r.len() ==> (#[trigger] r[x]) == base0[x * pw(i as nat)];
+                    lemma_pw_inj(k, nv);
+                } else { lemma_pw0_(); }
+                assert(r.len() == pw((nv - i) as nat));
+                assert forall|y: int| 0 <= y < pw((nv - i) as nat) implies (#[trigger] r[y])@ == mrow(ts, i as nat, y) by {
+                    lemma_mul_lt_pw(y, (nv - i) as nat, i as nat);
+                    if i > 0 { assert(r[y] == base0[y * pw(i as nat)]); } else { assert(y * pw(0) == y); }
+                }
+            }
+//@loopend 1
+            proof {
+                let lo1 = lo - 1;
+                if i != 0 {
+                    assert(eq0.last() == tabs[i - 1]);
+                    assert(eq_table_ok(ts, &tabs[i - 1], i - 1, nv));
+                    assert forall|x: int| 0 <= x < pw(nv) implies (#[trigger] base@[x])@ == eqtop(ts, (i - 1) as nat, x) by {
+                        assert(base@[x]@ == f_mul(base0[x]@, tabs[i - 1].evaluations@[x]@));
+                    }
+                }
+                assert forall|m: int| 0 <= m < c0 + 1 implies (#[trigger] eq_arr@[m])@.len() == pw((nv - (lo1 + m)) as nat) by { if m > 0 { assert(eq_arr@[m] == arr0[m - 1]); } }
+                assert forall|m: int, y: int| 0 <= m < c0 + 1 && 0 <= y < pw((nv - (lo1 + m)) as nat) implies (#[trigger] eq_arr@[m]@[y])@ == mrow(ts, (lo1 + m) as nat, y) by { if m > 0 { assert(eq_arr@[m] == arr0[m - 1]); } }
+            }
+//@loop 2 kw=for name=it2
+            invariant it2.index@ <= nv, nv == num_vars, nv < 62, nv >= 1, ts.len() == nv, eq_arr@.len() == nv - it2.index@, pp_powers@.len() == moff(nv, it2.index@ as nat),
+                forall|m: int| 0 <= m < nv - it2.index@ ==> (#[trigger] eq_arr@[m])@.len() == pw((nv - (it2.index@ + m)) as nat),
+                forall|m: int, y: int| 0 <= m < nv - it2.index@ && 0 <= y < pw((nv - (it2.index@ + m)) as nat) ==> (#[trigger] eq_arr@[m]@[y])@ == mrow(ts, (it2.index@ + m) as nat, y),
+                forall|m: int, y: int| 0 <= m < it2.index@ && 0 <= y < pw((nv - m) as nat) ==> (#[trigger] pp_powers@[moff(nv, m as nat) + y])@ == mrow(ts, m as nat, y),
+//@loopstart 2
+            let ghost arr0 = eq_arr@; let ghost pp0 = pp_powers@;
+            proof { lemma_pw_shl((nv - i) as nat); lemma_moff_mono(nv, i as nat); }
+//@loopend 2
+            proof {
+                assert(eq@ == arr0[0]@);
+                assert forall|m: int| 0 <= m < nv - (i + 1) implies (#[trigger] eq_arr@[m]) == arr0[m + 1] by { }
+                assert forall|m: int, y: int| 0 <= m < i + 1 && 0 <= y < pw((nv - m) as nat) implies (#[trigger] pp_powers@[moff(nv, m as nat) + y])@ == mrow(ts, m as nat, y) by {
+                    if m < i { lemma_moff_step(nv, m as nat, i as nat); assert(pp_powers@[moff(nv, m as nat) + y] == pp0[moff(nv, m as nat) + y]); }
+                    else { assert(pp_powers@[moff(nv, i as nat) + y] == eq@[y]); }
+                }
+            }
+//@before /let g_table = BatchMulPreprocessing::new/
+        proof { lemma_moff_total(nv, nv); lemma_pw_shl(nv); }
+//@loop 3 kw=for name=it3
+            invariant it3.index@ <= nv, nv == num_vars, nv < 62, nv >= 1, start == moff(nv, it3.index@ as nat), powers_of_g@.len() == it3.index@, powers_of_h@.len() == it3.index@,
+                pp_g@.len() == moff(nv, nv) && pp_h@.len() == moff(nv, nv) && pp_powers@.len() == moff(nv, nv), moff(nv, nv) < 0x8000_0000_0000_0000,
+                forall|j: int| 0 <= j < pp_g@.len() ==> (#[trigger] pp_g@[j])@ == f_mul(g@, pp_powers@[j]@),
+                forall|j: int| 0 <= j < pp_h@.len() ==> (#[trigger] pp_h@[j])@ == f_mul(h@, pp_powers@[j]@),
+                forall|m: int| 0 <= m < it3.index@ ==> (#[trigger] powers_of_g@[m])@.len() == pw((nv - m) as nat) && powers_of_h@[m]@.len() == pw((nv - m) as nat),
+                forall|m: int, y: int| 0 <= m < it3.index@ && 0 <= y < pw((nv - m) as nat) ==> (#[trigger] powers_of_g@[m]@[y])@ == f_mul(g@, pp_powers@[moff(nv, m as nat) + y]@),
+                forall|m: int, y: int| 0 <= m < it3.index@ && 0 <= y < pw((nv - m) as nat) ==> (#[trigger] powers_of_h@[m]@[y])@ == f_mul(h@, pp_powers@[moff(nv, m as nat) + y]@),
+//@loopstart 3
+            proof { lemma_pw_shl((nv - i) as nat); lemma_moff_step(nv, i as nat, nv); }
+//@before /UniversalParams \{/
+        proof {
+            let tsp = Seq::new(nv, |k: int| Fr::mk(draw(id0, pos0 + 2 + k as nat)));
+            assert(ts =~= tsp);
+            assert(g@ == draw(id0, pos0) && h@ == draw(id0, pos0 + 1));
+            assert forall|i: int, y: int| 0 <= i < nv && 0 <= y < pw((nv - i) as nat) implies (#[trigger] powers_of_g@[i]@[y])@ == f_mul(g@, mrow(tsp, i as nat, y)) by {
+                assert(pp_powers@[moff(nv, i as nat) + y]@ == mrow(ts, i as nat, y));
+            }
+            assert forall|i: int, y: int| 0 <= i < nv && 0 <= y < pw((nv - i) as nat) implies (#[trigger] powers_of_h@[i]@[y])@ == f_mul(h@, mrow(tsp, i as nat, y)) by {
+                assert(pp_powers@[moff(nv, i as nat) + y]@ == mrow(ts, i as nat, y));
+            }
+            assert forall|i: int| 0 <= i < nv implies (#[trigger] g_mask@[i])@ == f_mul(g@, tsp[i]@) by { assert(g_mask@[i]@ == f_mul(g@, t@[i]@)); }
+        }
+//@end
+}
